@@ -22,7 +22,8 @@ LEVEL_NOTE = ("Trusted: Coq kernel + vm_compute, harness, numpy as executor. The
 RULE = ("infeasible real polynomials of degree 1..30: feasible Chebyshev vectors scaled by 1.001..100, locally exceeding 1, c*T_d with "
         "c in [1, 5] (all roots of 1-F F~ on the circle), both signal operators, stubbed random choices; mixed parity; invalid strings "
         "for signal_operator / measurement / method / coef_type; purity: random sequences of 2..8 public calls (phase finding, "
-        "completion, conversions, response, solver, decomposition) run twice from one numpy seed; distinct by JSON; non-trivial = always")
+        "completion (float F, integer-typed P), conversions, response, solver, decomposition; polynomials as ndarray / list / numpy Polynomial, "
+        "with and without round-off sized residue in the off-parity slots) run twice from one numpy seed; distinct by JSON; non-trivial = always")
 TRUSTED = ["Coq 8.16.1 kernel incl. vm_compute", "harness (impl_handlers2.py, impl_handlers7.py)", "numpy/scipy as executors"]
 ASSUME = ["documented classes: CompletionError, AngleFindingError, ResponseError, ValueError"]
 DOC = {"CompletionError", "AngleFindingError", "ResponseError", "ValueError"}
@@ -128,7 +129,24 @@ def run(ctx):
     # ---------------------------------------------------------------- purity and determinism
     def rand_op():
         k = rng.choice(["qspp", "qspp", "completion", "p2l", "c2p", "p2c", "response", "newton", "angle_sequence", "ptlf", "roundtrip", "qsppP",
-                        "response_edge", "qspp_infeasible", "qspp_infeasible"])
+                        "response_edge", "qspp_infeasible", "qspp_infeasible", "qspp_residue", "completionP_int"])
+        if k == "qspp_residue":
+            # a definite-parity polynomial carrying round-off sized residue in the other parity's slots, as a fit or a product
+            # leaves behind; passed as ndarray, list or a numpy Polynomial (whose .coef is the caller's array)
+            d = rng.randint(2, 8)
+            p, _ = Q.cheb_family(rng, d, rng.uniform(0.3, 0.8), 0.15)
+            for j in range(d - 1, -1, -2):
+                p[j] = rng.choice([2.5e-17, -4e-17, 1e-16, 3e-18, 0.0])
+            return {"call": "qspp", "poly": [hexf(x) for x in p], "signal_operator": rng.choice(["Wx", "Wz"]),
+                    "container": rng.choice(["Polynomial", "Polynomial", "list", "array"])}
+        if k == "completionP_int":
+            # integer-typed P: c*T_d in the monomial basis (c = 1 on the boundary, c >= 2 infeasible), or small feasible ones after scaling
+            d = rng.randint(1, 6)
+            c = [0] * (d + 1)
+            c[d] = rng.choice([1, 1, 2, 3])
+            p = [int(x) for x in Q.cheb2mono([Fraction(x) for x in c])]
+            return {"call": "completion", "coefs": [hexf(float(x)) for x in p], "coef_type": "P", "as_int": True,
+                    "container": rng.choice(["list", "array"])}
         if k == "response_edge":
             # a grid as numpy.arange(-1, 1.01, 0.05) produces: its last point is 1.0000000000000018
             return {"call": "response", "adat": [hexf(-1.0), hexf(0.3), hexf(1.0000000000000018)], "phases": [hexf(rng.uniform(-3, 3)) for _ in range(rng.randint(1, 4))],
@@ -144,7 +162,8 @@ def run(ctx):
         if k == "qspp":
             d = rng.randint(1, 8)
             p, _ = Q.cheb_family(rng, d, rng.uniform(0.2, 0.8), 0.15)
-            return {"call": "qspp", "poly": [hexf(x) for x in p], "signal_operator": rng.choice(["Wx", "Wz"])}
+            return {"call": "qspp", "poly": [hexf(x) for x in p], "signal_operator": rng.choice(["Wx", "Wz"]),
+                    "container": rng.choice(["array", "array", "list", "Polynomial"])}
         if k == "qsppP":
             ph = [rng.uniform(-1, 1) for _ in range(rng.randint(2, 5))]
             pre, pim = Q.corner_of_phases(ph)
